@@ -270,7 +270,8 @@ def witness_rows():
                         rows.append((f'{o}2{d}', o, d, vnum, places, 'guards'))
         if o != 'DEC':
             radix = _REF_BASES[o][0]
-            for bad in ('0123456789ABCDEFG'[radix] + '1', '1.0', '+1', ' 1', '1_0', '-1', 'false', 'FALSE', '1' * 11, ''):
+            for bad in ('0123456789ABCDEFG'[radix] + '1', '1.0', '+1', ' 1', '1_0', '-1', 'false', 'FALSE', '1' * 11, '',
+                        '1\n', '\n1', '1 ', '1\r', '1\t', '1' * 10 + '\n', '\uff11', '\u0661', '1\n\n', '0x1', '1e1'):
                 rows.append((f'{o}2{d}', o, d, bad, None, 'guards'))
         rows.append((f'{o}2{d}', o, d, True, None, 'guards'))
     return rows
@@ -280,7 +281,8 @@ CATEGORY = {
     'window': ('C19.1', 'window boundaries (-bound-1, -bound, ..., bound-1, bound, bound+1) of the two bases'),
     'small': ('C19.2', 'small non-negative values'),
     'guards': ('C19.3', 'places (exact fit, wider, 10, too small, 0, 11, negative, boolean; with a negative number) and invalid inputs '
-                         '(foreign digit, fraction, sign, blank, underscore, "false", 11 digits, empty, boolean)'),
+                         '(foreign digit, fraction, sign, blank, underscore, "false", 11 digits, empty, boolean, trailing / leading newline, blank, tab, '
+                         'carriage return, full-width and Arabic-Indic digits, prefixes, exponents)'),
     'negative': ('C19.4', 'small negative values: two\'s complement in the width of the destination, sign read in the width of the origin'),
 }
 
